@@ -162,42 +162,60 @@ theorem consumeBlockAttributes_nip : ∀ fuel blanks r w, NIP b (consumeBlockAtt
   | zero => intro bl r w; cases b <;> (unfold consumeBlockAttributes; nip_go)
   | succ n ih => intro bl r w; cases b <;> (unfold consumeBlockAttributes; nip_go)
 
-omit hs hd in
-/-- The four list functions, with the placeholder queue perturbed (they do look at the open list ids). -/
-theorem lists_nip (hs : ∀ x, NIP true (rec.spans x)) (hd : ∀ x, NIP true (rec.document x)) : ∀ fuel,
-    (∀ i r w, NIP true (renderList rec env fuel i r w)) ∧
-    (∀ i r w, NIP true (renderListLoop rec env fuel i r w)) ∧
-    (∀ i r w, NIP true (renderListItem rec env fuel i r w)) ∧
-    (∀ r il al d, NIP true (renderItemLoop rec env fuel r il al d)) := by
+/-- The four list functions, with the placeholder queue or the log perturbed (they do look at the open list ids). -/
+theorem lists_nip (hb : b ≠ .ids) : ∀ fuel,
+    (∀ i r w, NIP b (renderList rec env fuel i r w)) ∧
+    (∀ i r w, NIP b (renderListLoop rec env fuel i r w)) ∧
+    (∀ i r w, NIP b (renderListItem rec env fuel i r w)) ∧
+    (∀ r il al d, NIP b (renderItemLoop rec env fuel r il al d)) := by
   have hr := replaceInline_nip rec env hs
   have hc := consumeBlockAttributes_nip rec env hs
-  have hm := matchItem_nip (b := true)
+  have hm := matchItem_nip (b := b)
   have hdr := delimitedRender_nip rec env hs hd
   intro fuel
   induction fuel with
   | zero =>
     refine ⟨?_, ?_, ?_, ?_⟩
-    · intro i r w; unfold renderList; nip_go
-    · intro i r w; unfold renderListLoop; nip_go
-    · intro i r w; unfold renderListItem; nip_go
-    · intro r il al d; unfold renderItemLoop; nip_go
+    · intro i r w; cases b <;> (unfold renderList; nip_go)
+    · intro i r w; cases b <;> (unfold renderListLoop; nip_go)
+    · intro i r w; cases b <;> (unfold renderListItem; nip_go)
+    · intro r il al d; cases b <;> (unfold renderItemLoop; nip_go)
   | succ n ih =>
     obtain ⟨ih1, ih2, ih3, ih4⟩ := ih
     refine ⟨?_, ?_, ?_, ?_⟩
-    · intro i r w; unfold renderList; nip_go
-    · intro i r w; unfold renderListLoop; nip_go
-    · intro i r w; unfold renderListItem; nip_go
-    · intro r il al d; unfold renderItemLoop; nip_go
+    · intro i r w
+      cases b with
+      | saved => unfold renderList; nip_go
+      | ids => exact absurd rfl hb
+      | log => unfold renderList; nip_go
+    · intro i r w
+      cases b with
+      | saved => unfold renderListLoop; nip_go
+      | ids => exact absurd rfl hb
+      | log => unfold renderListLoop; nip_go
+    · intro i r w
+      cases b with
+      | saved => unfold renderListItem; nip_go
+      | ids => exact absurd rfl hb
+      | log => unfold renderListItem; nip_go
+    · intro r il al d
+      cases b with
+      | saved => unfold renderItemLoop; nip_go
+      | ids => exact absurd rfl hb
+      | log => unfold renderItemLoop; nip_go
 
-/-- `lists.render`: with the queue perturbed by composition; with the open list ids perturbed because a top-level list
-    starts by emptying them (`modify_reset`), so nothing that follows can tell. -/
+/-- `lists.render`: with the queue or the log perturbed by composition; with the open list ids perturbed because a
+    top-level list starts by emptying them (`modify_reset`), so nothing that follows can tell. -/
 theorem listsRender_nip (fuel : Nat) (r : Reader) (w : Writer) : NIP b (listsRender rec env fuel r w) := by
   have hm := matchItem_nip (b := b)
   cases b with
-  | true =>
-    have hl := fun i r w => (lists_nip rec env hs hd fuel).1 i r w
+  | saved =>
+    have hl := fun i r w => (lists_nip rec env hs hd (by decide) fuel).1 i r w
     unfold listsRender; nip_go
-  | false =>
+  | ids =>
+    unfold listsRender; nip_go
+  | log =>
+    have hl := fun i r w => (lists_nip rec env hs hd (by decide) fuel).1 i r w
     unfold listsRender; nip_go
 
 theorem documentLoop_nip : ∀ fuel r w, NIP b (documentLoop rec env fuel r w) := by
